@@ -60,6 +60,8 @@ pub struct SimCfg {
     pub dt_ms: u64,
     /// server uptime (and token creation time) in seconds when the scenario starts
     pub epoch_s: u64,
+    /// clients (and, by the scenario's server_addrs, the server) use IPv6 addresses
+    pub ipv6: bool,
     /// deviations are offered in ticks fault_from..horizon
     pub fault_from: u32,
     pub horizon: u32,
@@ -95,6 +97,7 @@ impl SimCfg {
             name: name.to_string(),
             dt_ms: 250,
             epoch_s: 0,
+            ipv6: false,
             fault_from: 0,
             horizon: 6,
             tail: 12,
@@ -249,7 +252,11 @@ impl<'c> Sim<'c> {
     }
 
     pub fn caddr(&self, i: usize) -> SocketAddr {
-        client_addr(i as u16 + 1)
+        if self.cfg.ipv6 {
+            nc::client_addr6(i as u16 + 1)
+        } else {
+            client_addr(i as u16 + 1)
+        }
     }
 
     fn client_of_addr(&self, a: SocketAddr) -> Option<usize> {
